@@ -116,6 +116,35 @@ if os.path.exists(os.path.join(HERE, "lean", "Ivy", "L3", "PopenProofs.lean")):
         technique="Lean 4 reachability invariant over all action sequences + log-replay correspondence under a deterministic scheduler",
         design="§7 C19")
 
+if os.path.exists(os.path.join(HERE, "lean", "Ivy", "L2", "RawProofs.lean")):
+    CLAIMED["C09"] = dict(
+        text="Lean 4 theorems (Ivy/Props/C09.lean, 13) over an LTS of one iv_event_raw object: the kernel object in both representations (eventfd counter / "
+             "pipe with capacity), O_NONBLOCK tracked per description, the eventfd2->eventfd->pipe latch, any number of posters (threads, signal handlers, a "
+             "forked child), the owner's drain-then-handler dispatch, kernel answers (ok/EAGAIN/EINTR) as part of the action. For every kernel configuration and "
+             "every reachable state: no lost post (a blocked owner with an unreadable descriptor means every completed post was followed by a handler entry "
+             "strictly after its write), posting never blocks (O_NONBLOCK on every description written), the owner's read never blocks, iv_fatal unreachable, "
+             "readable <=> an accepted write is undrained, handler entries <= accepted writes, and both representations refine one abstract one-bit machine. "
+             "Tied to the code by replaying T-sched logs (3 transports x 4 poll methods, posts from threads, virtual signal handlers, a child stand-in, bursts "
+             "beyond the pipe capacity, scheduling points between drain and handler) through the LTS; implementation-only oracle for lost posts/blocking writes.",
+        note="Trusted: Lean kernel; standard axioms; T-sched engine + mt_raw extension (two trampolines); kernel contract for eventfd/pipe; LoopSpec (a readable registered "
+             "descriptor with an in-handler is dispatched before the loop blocks) assumed here and provided in spirit by C02/C03; real cross-process posting and "
+             "true asynchronous signal context are outside the model (signal handlers run at scheduling points; the child is a thread with only the write fd).",
+        technique="Lean 4 LTS invariant proof over all interleavings and kernel configurations + deterministic-schedule log replay",
+        design="§7 C09")
+if os.path.exists(os.path.join(HERE, "lean", "Ivy", "L2", "SignalProofs.lean")):
+    CLAIMED["C10"] = dict(
+        text="Lean 4 theorems (Ivy/Props/C10.lean, 15) over an LTS of iv_signal.c: per-thread and process-wide interest sets ordered by the C comparator, "
+             "find_first/walk, `active`, per-signal counts and dispositions, owner pid, raw-event writes as separate actions, register/unregister with the "
+             "hand-off, fork. For every history and interleaving: the invariant; fan-out = exactly the documented rule (thread's own interests first: first "
+             "exclusive else all; else the process-wide set under the lock); a delivery during a running handler re-arms it; a delivery noted for an exclusive "
+             "interest that is unregistered first is handed to what a fresh delivery would reach (thread's remaining interests, else process-wide — the repaired "
+             "D7); disposition is default iff no interest is registered; a forked child posts nothing. Tied to the code by replaying T-sched logs (virtual signals "
+             "delivered at scheduling points of chosen threads, white-box `active` snapshots under sig_lock) through the LTS; grant-based implementation oracle.",
+        note="Trusted: Lean kernel; standard axioms; T-sched engine + mt_sig extension; raw-event layer abstract (C09); AVL as sorted list (C16); signals arrive only at "
+             "scheduling points, kernel coalescing of pending signals not modelled; fork is virtual (getpid switches); progress of pending writes is fairness, not proved.",
+        technique="Lean 4 LTS invariant + decision-logic theorems over all interleavings + deterministic-schedule log replay",
+        design="§7 C10")
+
 NOT_YET = "check not built yet in this round; planned per DESIGN.md §7 (Lean model + theorems + correspondence)"
 
 checks = []
